@@ -14,7 +14,7 @@ pub const THRESHOLDS: [f64; 9] = [0.0, 1.0, 3.0, 5.5, 10.0, 25.0, f64::INFINITY,
 
 pub fn markers(code: &str) -> &'static [&'static str] {
     match code {
-        "en" => &["st", "nd", "rd", "th", "ths", "rds"],
+        "en" => &["st", "nd", "rd", "th", "ths", "rds", "sts"],
         "fr" => &["er", "ère", "ème", "ers", "ères", "èmes"],
         "es" => &["º", "ª", "ᵒˢ", "ᵃˢ", ".ᵉʳ"],
         "pt" => &["º", "ª", "ᵒˢ", "ᵃˢ"],
@@ -194,7 +194,7 @@ pub fn run(ctx: &Ctx) -> Outcome {
         super::legs::fuzz_leg(ctx, &mut rep, 45);
     }
     let rule = "cases = every stream of 1..4 (thorough 1..5) tokens over a 16-word alphabet per language (one word per grammar / policy class; counter exhaustive_small_alphabet_streams) at thresholds 0 and 10, and grammar-noise token streams (number words 41%, ordinal forms 8%, conjunction 6%, separator 5%, linking 8%, fillers 16%, punctuation 12%, zero 4%, 12% of number slots replaced by a complete spelled number), two thirds of them with whitespace/hyphen tokens, random case and random separation / not-a-number hints; each stream scanned at 9 thresholds (incl. inf, NaN, negative); every check is applied to the result of find_numbers and to what find_numbers_iter yields, in the order it yields; non-trivial = stream for which at least one occurrence was reported and checked (span, word boundaries, numeral grammar, value = reading, ordinal flag <=> marker)";
-    finish(ctx, rep, rule, &["ordinal marker alphabets per language are taken from the property statement and the library documentation (en st/nd/rd/th(s), fr er/ère/ème(s), es/pt º ª ᵒˢ ᵃˢ (.ᵉʳ), it º ª, de '.', nl e)"], vec![])
+    finish(ctx, rep, rule, &["ordinal marker alphabets per language are taken from the property statement and the library documentation (en st/nd/rd/th, plural sts/rds/ths, fr er/ère/ème(s), es/pt º ª ᵒˢ ᵃˢ (.ᵉʳ), it º ª, de '.', nl e)"], vec![])
 }
 
 pub fn replay(case: &J) -> Vec<String> {
